@@ -84,7 +84,7 @@ func refDump(e Expression, indent string, level int) string {
 var corpusC19 = []string{
 	`a == 1`, `a != "x y"`, `"x" in a.b`, `z not in "/p/q"`, `a is empty`, `"/a/b" is not empty`, `a matches "^x"`, `a not matches "x\"y"`,
 	`a == 1 and b == 2 or not c in d`, `not (a == 1 or b.c["d e"] != "\t")`, `any a as x { x == 1 }`, `all a.b as i, v { v != 1 and i == 0 }`, `any "/a" as _, v { all v as k, _ { k == "" } }`,
-	`all a as i, _ { i == 0 }`, `a == "\x00\x7f\xffé١"`, `a["x.y"].z == "/q"`, `a == ""`, `"" == 1`,
+	`all a as i, _ { i == 0 }`, `a == "\x00\x7f\xffé١"`, `any usage["cpu%d"] as v { v == "%s" }`, `"/labels/ti~0lde/a~1b" is empty`, `all "/a~1b" as k, _ { k != "%" }`, `a["x.y"].z == "/q"`, `a == ""`, `"" == 1`,
 }
 
 // H_C19_corpus: parser-produced trees, symbolic indent and start level.
@@ -94,6 +94,9 @@ func H_C19_corpus() {
 	vAssume(err == nil)
 	e := t.(Expression)
 	indent := vString(2)
+	if vChoose(4) == 0 {
+		indent = []string{"%", "%d ", "%%", "%!"}[vChoose(4)]
+	}
 	level := vChoose(4)
 	var sb strings.Builder
 	e.ExpressionDump(&sb, indent, level)
